@@ -23,6 +23,22 @@ type genCtx struct {
 	r     *vh.RNG
 	pool  []common.Address // contract addresses, calls go "forward" only (acyclic)
 	depth int
+	pre   map[uint64]uint64 // pre-block (trie) storage of the contract whose body is being generated
+}
+
+// slotValue draws an SSTORE value from a tiny pool per slot: 0, the slot's pre-block value (writing a slot back
+// to what the trie holds is the interesting case for dirty/pending/origin bookkeeping), and two others.
+func (g *genCtx) slotValue(k uint64) uint64 {
+	switch g.r.Weighted([]int{25, 35, 20, 20}) {
+	case 0:
+		return 0
+	case 1:
+		return g.pre[k] // 0 when the slot is not in the pre-state
+	case 2:
+		return 5
+	default:
+		return uint64(g.r.Range(1, 3))
+	}
 }
 
 func (g *genCtx) gasSpec() uint64 {
@@ -157,7 +173,8 @@ func (g *genCtx) body(self int, nest int) []step {
 		case 0:
 			b = append(b, step{op: 'G', n: uint64(r.Range(1, 120))})
 		case 1:
-			b = append(b, step{op: 'W', k: uint64(r.Range(1, 3)), v: uint64(r.Weighted([]int{30, 25, 25, 20}))})
+			k := uint64(r.Range(1, 3))
+			b = append(b, step{op: 'W', k: k, v: g.slotValue(k)})
 		case 2:
 			s := step{op: 'L'}
 			for k := r.Intn(5); k > 0; k-- {
@@ -210,7 +227,23 @@ func genCase(r *vh.RNG) *testCase {
 				a.storage[k] = uint64(r.Range(1, 3))
 			}
 		}
+		g.pre = a.storage
 		a.body = g.body(i, 0)
+		// a write back to the pre-block value right before a call that shares this contract's storage
+		// (DELEGATECALL / CALLCODE), and a different value after it: what a later transaction starts from
+		if r.Chance(30) {
+			for si, st := range a.body {
+				if st.op == 'C' && (st.kind == "d" || st.kind == "cc") {
+					k := uint64(r.Range(1, 3))
+					nb := append([]step{}, a.body[:si]...)
+					nb = append(nb, step{op: 'W', k: k, v: a.storage[k]})
+					nb = append(nb, a.body[si])
+					nb = append(nb, step{op: 'W', k: k, v: a.storage[k] + uint64(r.Range(1, 4))})
+					a.body = append(nb, a.body[si+1:]...)
+					break
+				}
+			}
+		}
 		c.accts = append(c.accts, a)
 	}
 	ntx := r.Weighted([]int{0, 12, 58, 30})
@@ -228,6 +261,9 @@ func genCase(r *vh.RNG) *testCase {
 		} else {
 			// prefer entry points low in the call graph so that trees are deep
 			t.to = g.pool[r.Weighted([]int{50, 25, 10, 5, 4, 3, 3}[:n])]
+			if i > 0 && !c.txs[i-1].create && r.Chance(35) {
+				t.to = c.txs[i-1].to // the same entry point again: later transactions meet the earlier one's pending writes
+			}
 			if r.Chance(3) {
 				t.to = ghostA
 			}
@@ -320,5 +356,87 @@ func deepCase(r *vh.RNG, idx int) *testCase {
 	c.extra = []common.Address{ghostA, ghostB}
 	c.txs = append(c.txs, tx{origin: originA, to: plainRich, gas: 30000, value: 1},
 		tx{origin: originA, to: self, gas: 10000000000000 * uint64(r.Range(1, 3))})
+	return c
+}
+
+// restoreCase: storage written by an earlier transaction of the block, then, in a later transaction, a surviving
+// frame writes the slot back to its pre-block (trie) value and a nested frame that shares the storage context
+// (DELEGATECALL / CALLCODE, possibly two levels) writes the same slot and fails. The slot must keep the pre-block
+// value; the committed/pending/dirty layers of the state object make this a separate code path from the
+// single-transaction case.
+func restoreCase(r *vh.RNG) *testCase {
+	c := &testCase{}
+	a, l1, l2 := addrN(0xc100), addrN(0xc101), addrN(0xc102)
+	k := uint64(r.Range(1, 3))
+	v0 := uint64(r.Weighted([]int{50, 20, 15, 15})) // pre-block value: absent (0) or prefilled
+	v1 := v0 + uint64(r.Range(1, 4))
+	pool := []uint64{0, v0, v1, 9}
+	pick := func() uint64 { return pool[r.Intn(len(pool))] }
+	failing := func() step {
+		switch r.Intn(4) {
+		case 0:
+			return step{op: 'I', n: uint64(r.Intn(4))}
+		case 1:
+			return step{op: 'S'} // succeeds: the write survives (control)
+		default:
+			return step{op: 'V'}
+		}
+	}
+	kind := func() string { return []string{"d", "cc"}[r.Intn(2)] }
+	gas := func() uint64 {
+		if r.Chance(20) {
+			return uint64(r.Range(2400, 25000)) // may run out inside the nested frame, before or after its write
+		}
+		return 200000
+	}
+	acct := func(ad common.Address, body []step) *account {
+		return &account{addr: ad, nonce: 1, bal: uint64(r.Intn(20)), storage: map[uint64]uint64{}, body: body}
+	}
+	inner := []step{{op: 'W', k: k, v: pick()}}
+	if r.Chance(30) {
+		inner = append(inner, step{op: 'W', k: k, v: pick()})
+	}
+	inner = append(inner, failing())
+	var mid []step
+	twoLevels := r.Chance(35)
+	if twoLevels {
+		if r.Chance(50) {
+			mid = append(mid, step{op: 'W', k: k, v: pick()})
+		}
+		mid = append(mid, step{op: 'C', kind: kind(), addr: l2, gas: gas()}, failing())
+	}
+	var body []step
+	if r.Chance(85) {
+		body = append(body, step{op: 'W', k: k, v: v0}) // back to the pre-block value
+	} else {
+		body = append(body, step{op: 'W', k: k, v: pick()})
+	}
+	if twoLevels {
+		body = append(body, step{op: 'C', kind: kind(), addr: l1, gas: gas()})
+	} else {
+		body = append(body, step{op: 'C', kind: kind(), addr: l2, gas: gas()})
+	}
+	if r.Chance(25) {
+		body = append(body, step{op: 'C', kind: kind(), addr: l2, gas: gas()})
+	}
+	if r.Chance(85) {
+		body = append(body, step{op: 'W', k: k, v: v1}) // what the next transaction finds pending
+	}
+	body = append(body, []step{{op: 'S'}, {op: 'S'}, {op: 'S'}, {op: 'V'}}[r.Intn(4)])
+	ca := acct(a, body)
+	if v0 != 0 {
+		ca.storage[k] = v0
+	}
+	c.accts = append(c.accts,
+		&account{addr: originA, bal: 1000000000, storage: map[uint64]uint64{}},
+		&account{addr: plainRich, nonce: 1, bal: 777, storage: map[uint64]uint64{}},
+		ca, acct(l1, mid), acct(l2, inner))
+	if mid == nil {
+		c.accts[3].body = []step{{op: 'S'}}
+	}
+	c.extra = []common.Address{ghostA, ghostB}
+	for n := r.Range(2, 3); n > 0; n-- {
+		c.txs = append(c.txs, tx{origin: originA, to: a, gas: uint64([]int{90000, 300000, 1000000}[r.Intn(3)])})
+	}
 	return c
 }
